@@ -687,3 +687,299 @@ theorem wagerO_obInv {s s' : State} {c : Nat} {tk : Tk} {u : Nat} {a : Int} {pl 
     hbu.symm rfl rfl rfl hfresh (by rfl) (by rfl) (by rfl) (by rfl)
 
 end Sge.Core
+
+namespace Sge.Core
+open Sge Sge.Genesis
+
+-- ---------------------------------------------------------------------------------------------
+-- settlement (end-blockers): only realised profit, settlement flags and statuses change
+
+theorem bettorLoses_ext : ∀ (fulfs : List Fulf) (b b' : Book), bettorLoses b fulfs = some b' → Ext b b' := by
+  intro fulfs
+  induction fulfs with
+  | nil => intro b b' h; simp [bettorLoses] at h; rw [← h]; exact Ext.refl b
+  | cons f rest ih =>
+    intro b b' h
+    unfold bettorLoses at h
+    simp only [bind, Option.bind_eq_some_iff] at h
+    obtain ⟨p, hp, h⟩ := h
+    have hpi := Book.getPart_idx hp
+    have h1 := Ext.setPart b { p with actualProfit := p.actualProfit + f.bet } p (by show b.getPart p.idx = some p; rw [hpi]; exact hp) rfl rfl rfl
+    exact h1.trans (ih _ _ h)
+
+theorem bettorWins_ext : ∀ (fulfs : List Fulf) (bal : List (Nat × Int)) (bettor : Nat) (b : Book) (r : List (Nat × Int) × Book),
+    bettorWins bal bettor b fulfs = some r → Ext b r.2 := by
+  intro fulfs
+  induction fulfs with
+  | nil => intro bal bettor b r h; simp [bettorWins] at h; rw [← h]; exact Ext.refl b
+  | cons f rest ih =>
+    intro bal bettor b r h
+    unfold bettorWins at h
+    simp only [bind, Option.bind_eq_some_iff] at h
+    obtain ⟨p, hp, bal', _, h⟩ := h
+    have hpi := Book.getPart_idx hp
+    have h1 := Ext.setPart b { p with actualProfit := p.actualProfit - f.profit } p (by show b.getPart p.idx = some p; rw [hpi]; exact hp) rfl rfl rfl
+    exact h1.trans (ih _ _ _ _ h)
+
+theorem settleOutcome_ext {bal : List (Nat × Int)} {won : Bool} {bettor : Nat} {b : Book} {fulfs : List Fulf}
+    {r : List (Nat × Int) × Book} (h : settleOutcome bal won bettor b fulfs = some r) : Ext b r.2 := by
+  unfold settleOutcome at h
+  split at h
+  · exact bettorWins_ext _ _ _ _ _ h
+  · simp only [Option.map_eq_some_iff] at h
+    obtain ⟨b', hb', rfl⟩ := h
+    exact bettorLoses_ext _ _ _ hb'
+
+theorem markSettled_obInv {s : State} (hI : ObInv s) (bet t : Bet) (hl : lookup Bet.key (Bet.key bet) s.bets = some t)
+    (hm : bet.market = t.market) (ho : bet.odds = t.odds) (hf : bet.fulfs = t.fulfs) (hid : bet.id = t.id) :
+    ObInv (markSettled s bet) :=
+  hI.setBet t { bet with settleHeight := s.height } hl hm ho hf hid (by rfl) (by rfl) (by rfl) (by rfl)
+
+theorem settleBet_obInv {s s' : State} {c u : Nat} (hI : ObInv s) (h : settleBet s c u = some s') : ObInv s' := by
+  unfold settleBet at h
+  simp only [bind, Option.bind_eq_some_iff] at h
+  obtain ⟨bet0, _, bet, hbet, _, _, m, _, h⟩ := h
+  have hkey : Bet.key bet = [c, bet0.id] := (lookup_mem hbet).2
+  have hl : lookup Bet.key (Bet.key bet) s.bets = some bet := by rw [hkey]; exact hbet
+  split at h
+  · unfold settleRefund at h
+    simp only [bind, Option.bind_eq_some_iff, pure, Option.some.injEq] at h
+    obtain ⟨s1, h1, s2, h2, rfl⟩ := h
+    obtain ⟨_, _, rfl⟩ := bankSend_shape h1
+    obtain ⟨_, _, rfl⟩ := bankSend_shape h2
+    refine markSettled_obInv ?_ _ bet ?_ rfl rfl rfl rfl
+    · exact hI.of_eq (by rfl) (by rfl) (by rfl) hI.mkt
+    · exact hl
+  · simp only [Option.bind_eq_some_iff] at h
+    obtain ⟨_, _, h⟩ := h
+    unfold settleDeclared at h
+    simp only [bind, Option.bind_eq_some_iff, pure, Option.some.injEq] at h
+    obtain ⟨bk, hbk, r, hr, s2, h2, rfl⟩ := h
+    obtain ⟨_, _, rfl⟩ := bankSend_shape h2
+    have hx := settleOutcome_ext hr
+    obtain ⟨_, hbu⟩ := getBook_mem hbk
+    have hI1 : ObInv { s with bal := r.1 } := hI.of_eq (by rfl) (by rfl) (by rfl) hI.mkt
+    have hI2 := hI1.setBook bk r.2 (by rw [hx.uid, hbu]; exact hbk) hx
+    refine markSettled_obInv ?_ _ bet ?_ rfl rfl rfl rfl
+    · exact hI2.of_eq (by rfl) (by rfl) (by rfl) hI2.mkt
+    · exact hl
+
+theorem settlePage_obInv : ∀ (page : List (Nat × Nat × Nat × Nat)) (s : State) (r : State × Nat),
+    ObInv s → settlePage s page = some r → ObInv r.1 := by
+  intro page
+  induction page with
+  | nil => intro s r hI h; simp [settlePage] at h; rw [← h]; exact hI
+  | cons pb rest ih =>
+    intro s r hI h
+    unfold settlePage at h
+    simp only [bind, Option.bind_eq_some_iff, pure, Option.some.injEq] at h
+    obtain ⟨s1, h1, r1, hr, rfl⟩ := h
+    exact ih _ r1 (settleBet_obInv hI h1) hr
+
+theorem bookResolved_obInv {s s' : State} {u : Nat} (hI : ObInv s) (h : bookResolved s u = some s') : ObInv s' := by
+  unfold bookResolved at h
+  simp only [bind, Option.bind_eq_some_iff, pure, Option.some.injEq] at h
+  obtain ⟨b, hb, _, _, rfl⟩ := h
+  obtain ⟨_, hbu⟩ := getBook_mem hb
+  have h1 := hI.setBook b { b with status := OB_RESOLVED } (by show getBook s b.uid = some b; rw [hbu]; exact hb) (Ext.status b OB_RESOLVED)
+  exact h1.of_eq (by rfl) (by rfl) (by rfl) h1.mkt
+
+theorem betEndBlockStep_obInv {s : State} {mk n : Nat} {r : State × Nat} (hI : ObInv s) (h : betEndBlockStep s mk n = some r) :
+    ObInv r.1 := by
+  unfold betEndBlockStep at h
+  simp only [bind, Option.bind_eq_some_iff] at h
+  obtain ⟨r0, h0, h⟩ := h
+  have e0 := settlePage_obInv _ _ _ hI h0
+  split at h
+  · simp only [pure, Option.some.injEq] at h; rw [← h]; exact e0
+  · simp only [bind, Option.bind_eq_some_iff, pure, Option.some.injEq] at h
+    obtain ⟨q, _, s2, h2, rfl⟩ := h
+    have e1 : ObInv { r0.1 with mqueue := q } := e0.of_eq (by rfl) (by rfl) (by rfl) e0.mkt
+    exact bookResolved_obInv e1 h2
+
+theorem betEndBlock_obInv : ∀ (fuel : Nat) (s : State) (n : Nat) (s' : State),
+    ObInv s → betEndBlock fuel s n = some s' → ObInv s' := by
+  intro fuel
+  induction fuel with
+  | zero => intro s n s' hI h; simp [betEndBlock] at h; rw [← h]; exact hI
+  | succ fuel ih =>
+    intro s n s' hI h
+    unfold betEndBlock at h
+    split at h
+    · simp at h; rw [← h]; exact hI
+    · split at h
+      · simp at h; rw [← h]; exact hI
+      · simp only [bind, Option.bind_eq_some_iff] at h
+        obtain ⟨r, hr, h⟩ := h
+        exact ih _ _ _ (betEndBlockStep_obInv hI hr) h
+
+
+theorem settlePart_shape {s : State} {b : Book} {p : Part} {m : Market} {r : State × Book} (h : settlePart s b p m = some r) :
+    (∃ bal', r.1 = { s with bal := bal' }) ∧
+    ∃ p', r.2 = b.setPart p' ∧ p'.idx = p.idx ∧ p'.notFilled = p.notFilled ∧ p'.totalBet = p.totalBet ∧ p'.addr = p.addr := by
+  unfold settlePart at h
+  simp only [bind, Option.bind_eq_some_iff] at h
+  obtain ⟨_, _, _, _, s1, h1, h⟩ := h
+  obtain ⟨_, _, rfl⟩ := bankSend_shape h1
+  split at h
+  · simp only [bind, Option.bind_eq_some_iff, pure, Option.some.injEq] at h
+    obtain ⟨s2, h2, rfl⟩ := h
+    obtain ⟨_, _, rfl⟩ := bankSend_shape h2
+    exact ⟨⟨_, rfl⟩, _, rfl, rfl, rfl, rfl, rfl⟩
+  · simp only [bind, Option.bind_eq_some_iff, pure, Option.some.injEq] at h
+    obtain ⟨s2, h2, rfl⟩ := h
+    obtain ⟨_, _, rfl⟩ := bankSend_shape h2
+    exact ⟨⟨_, rfl⟩, _, rfl, rfl, rfl, rfl, rfl⟩
+
+theorem settleParts_ext (m : Market) (count : Nat) : ∀ (ps : List Part) (s : State) (b : Book) (sc pr : Nat)
+    (r : State × Book × Nat × Nat), settleParts m count ps s b sc pr = some r →
+    ps.Pairwise (fun a c => a.idx ≠ c.idx) → (∀ p ∈ ps, b.getPart p.idx = some p) →
+    (∃ bal', r.1 = { s with bal := bal' }) ∧ Ext b r.2.1 := by
+  intro ps
+  induction ps with
+  | nil => intro s b sc pr r h _ _; simp [settleParts] at h; rw [← h]; exact ⟨⟨s.bal, rfl⟩, Ext.refl b⟩
+  | cons p rest ih =>
+    intro s b sc pr r h hd hg
+    rw [List.pairwise_cons] at hd
+    unfold settleParts at h
+    simp only [bind, Option.bind_eq_some_iff] at h
+    obtain ⟨r1, h1, h⟩ := h
+    have hstep : (∃ bal', r1.1 = { s with bal := bal' }) ∧ Ext b r1.2.1 ∧ (∀ q ∈ rest, r1.2.1.getPart q.idx = some q) := by
+      unfold settleOne at h1
+      split at h1
+      · simp only [Option.map_eq_some_iff] at h1
+        obtain ⟨x, hx, rfl⟩ := h1
+        obtain ⟨hb, p', e1, e2, e3, e4, e5⟩ := settlePart_shape hx
+        refine ⟨hb, ?_, ?_⟩
+        · show Ext b x.2
+          rw [e1]
+          exact Ext.setPart b p' p (by rw [e2]; exact hg p (List.mem_cons_self ..)) e3 e4 e5
+        · intro q hq
+          show x.2.getPart q.idx = some q
+          rw [e1, Book.getPart_setPart_ne _ _ _ (by rw [e2]; exact hd.1 q hq)]
+          exact hg q (List.mem_cons_of_mem _ hq)
+      · cases h1
+        exact ⟨⟨s.bal, rfl⟩, Ext.refl b, fun q hq => hg q (List.mem_cons_of_mem _ hq)⟩
+    obtain ⟨⟨bal1, hb1⟩, hx1, hg1⟩ := hstep
+    split at h
+    · simp only [pure, Option.some.injEq] at h
+      rw [← h]
+      exact ⟨⟨bal1, hb1⟩, hx1⟩
+    · obtain ⟨⟨bal2, hb2⟩, hx2⟩ := ih _ _ _ _ _ h hd.2 hg1
+      exact ⟨⟨bal2, by rw [hb2, hb1]⟩, hx1.trans hx2⟩
+
+theorem obEndBlock_obInv : ∀ (fuel : Nat) (s : State) (n i : Nat) (s' : State),
+    ObInv s → obEndBlock fuel s n i = some s' → ObInv s' := by
+  intro fuel
+  induction fuel with
+  | zero => intro s n i s' hI h; simp [obEndBlock] at h; rw [← h]; exact hI
+  | succ fuel ih =>
+    intro s n i s' hI h
+    unfold obEndBlock at h
+    split at h
+    · simp at h; rw [← h]; exact hI
+    · split at h
+      · simp at h; rw [← h]; exact hI
+      · simp only [bind, Option.bind_eq_some_iff] at h
+        obtain ⟨b, hb, m, _, _, _, r, hr, h⟩ := h
+        obtain ⟨hbm, hbu⟩ := getBook_mem hb
+        have hsP := (hI.qinv b hbm).s.sP
+        have hpw : b.parts.Pairwise (fun a c => a.idx ≠ c.idx) := by
+          unfold Sorted at hsP
+          refine List.Pairwise.imp ?_ hsP
+          intro a c hac e
+          simp only [Part.key, e] at hac
+          rw [ltL_irrefl] at hac
+          cases hac
+        obtain ⟨⟨bal', hbal⟩, hx⟩ := settleParts_ext m n b.parts s b 0 0 r hr hpw (fun p hp => Book.mem_getPart hsP hp)
+        have hI1 : ObInv r.1 := by rw [hbal]; exact hI.of_eq (by rfl) (by rfl) (by rfl) hI.mkt
+        have hb1 : getBook r.1 b.uid = some b := by rw [hbal, hbu]; exact hb
+        split at h
+        · simp only [bind, Option.bind_eq_some_iff] at h
+          obtain ⟨q, _, h⟩ := h
+          apply ih _ _ _ _ _ h
+          have hx2 : Ext b { r.2.1 with status := OB_SETTLED } := hx.trans (Ext.status r.2.1 OB_SETTLED)
+          have hI2 : ObInv { r.1 with obqueue := q } := hI1.of_eq (by rfl) (by rfl) (by rfl) hI1.mkt
+          exact hI2.setBook b _ (by rw [hx2.uid]; exact hb1) hx2
+        · apply ih _ _ _ _ _ h
+          exact hI1.setBook b _ (by rw [hx.uid]; exact hb1) hx
+
+theorem endBlockO_obInv {s s' : State} (hI : ObInv s) (h : endBlockO s = some s') : ObInv s' := by
+  unfold endBlockO at h
+  simp only [bind, Option.bind_eq_some_iff] at h
+  obtain ⟨s1, h1, h2⟩ := h
+  exact obEndBlock_obInv _ _ _ _ _ (betEndBlock_obInv _ _ _ _ hI h1) h2
+
+
+-- ---------------------------------------------------------------------------------------------
+-- every operation, every history
+
+theorem step_obInv (s : State) (op : Op) (hI : ObInv s) : ObInv (step s op).1 := by
+  cases op with
+  | marketAdd c tk u st en o stt =>
+    simp only [step, marketAdd, commit]
+    cases h : marketAddO s c tk u st en o stt with
+    | none => exact hI
+    | some s' => exact marketAddO_obInv hI h
+  | marketUpdate tk u st en stt =>
+    simp only [step, marketUpdate, commit]
+    cases h : marketUpdateO s tk u st en stt with
+    | none => exact hI
+    | some s' => exact marketUpdateO_obInv hI h
+  | marketResolve tk u ts stt w =>
+    simp only [step, marketResolve, commit]
+    cases h : marketResolveO s tk u ts stt w with
+    | none => exact hI
+    | some s' => exact marketResolveO_obInv hI h
+  | deposit c tk m a pd =>
+    simp only [step, houseDeposit]
+    cases h : houseDepositO s c tk m a pd with
+    | none => exact hI
+    | some r => exact houseDepositO_obInv hI h
+  | withdraw c tk m i md a pd =>
+    simp only [step, houseWithdraw, commit]
+    cases h : houseWithdrawO s c tk m i md a pd with
+    | none => exact hI
+    | some s' => exact houseWithdrawO_obInv hI h
+  | wager c tk u a pl =>
+    simp only [step, wager, commit]
+    cases h : wagerO s c tk u a pl with
+    | none => exact hI
+    | some s' => exact wagerO_obInv hI h
+  | grant g e k l x => exact hI.of_eq (by rfl) (by rfl) (by rfl) hI.mkt
+  | revoke g e k => exact hI.of_eq (by rfl) (by rfl) (by rfl) hI.mkt
+  | send a b x =>
+    simp only [step]
+    split
+    · exact hI
+    · unfold commit
+      cases h : bankSend s a b x with
+      | none => exact hI
+      | some s' =>
+        obtain ⟨_, _, rfl⟩ := bankSend_shape h
+        exact hI.of_eq (by rfl) (by rfl) (by rfl) hI.mkt
+  | setParams p =>
+    simp only [step]
+    split
+    · exact hI.of_eq (by rfl) (by rfl) (by rfl) hI.mkt
+    · exact hI
+  | endBlock =>
+    simp only [step, endBlock]
+    cases h : endBlockO s with
+    | none => exact hI
+    | some s' => exact endBlockO_obInv hI h
+  | newBlock h t => exact hI.of_eq (by rfl) (by rfl) (by rfl) hI.mkt
+
+theorem run_obInv (s : State) (ops : List Op) (hI : ObInv s) : ObInv (run s ops) := by
+  induction ops generalizing s with
+  | nil => exact hI
+  | cons op rest ih => exact ih _ (step_obInv s op hI)
+
+/-- the empty chain (no markets, books, bets) satisfies the invariant -/
+theorem obInv_init (p : Params) (bal : List (Nat × Int)) (h t : Nat) :
+    ObInv { bal := bal, params := p, height := h, time := t } := by
+  refine ⟨by show Sorted Book.key []; simp [Sorted], by show Sorted Bet.key []; simp [Sorted],
+    (fun t ht => by cases ht), (fun m hm => by cases hm), (fun b hb => by cases hb), (fun b hb => by cases hb),
+    (fun b hb => by cases hb), (fun b hb => by cases hb), (fun t ht => by cases ht)⟩
+
+end Sge.Core
